@@ -1593,6 +1593,9 @@ var shapeTargets = []shapeTarget{
 	{"internal/transfer", "RecvManifestMultiStream", "", "if-cond-has:statErr", "entry_stat_test"},
 	{"internal/transfer", "RecvManifestMultiStream", "", "args:os.Remove", "entry_removes"},
 	{"internal/transfer", "LoadOrCreateSidecarWithFallback", "", "if-all", "entry_load_ifs"},
+	{"internal/transfer", "RecvManifestMultiStream", "", "args:LoadOrCreateSidecarWithFallback", "entry_load_args"},
+	{"internal/transfer", "RecvManifestMultiStream", "", "assign:primary", "entry_primary_path"},
+	{"internal/transfer", "RecvManifestMultiStream", "", "assign:filePath", "entry_file_path"},
 	// the sender's per-file confirmation goroutine (started by sendFileEnd): a rejected file returns before anything is counted
 	{"internal/transfer", "SendManifestMultiStream", "", "closure-go:sendFileEnd", "send_confirm_goroutine"},
 	// finalisation gate of the receiver (Model/Once)
